@@ -94,11 +94,18 @@ type List struct {
 	// Strict: labels must match as well as arities. Lenient replays (twin
 	// re-execution) only require arities to match.
 	Strict bool
+	// PadZero: once the list is exhausted answer 0 to everything instead of
+	// panicking. Used to replay a hang: its list was cut at an arbitrary point
+	// of a loop that kept asking.
+	PadZero bool
 }
 
 func NewList(cs []Choice, strict bool) *List { return &List{in: cs, Strict: strict} }
 
 func (l *List) next(n uint64, label string) uint64 {
+	if l.pos >= len(l.in) && l.PadZero {
+		return 0
+	}
 	if l.pos >= len(l.in) {
 		panic(Exhausted{fmt.Sprintf("choice list exhausted at #%d (%s/%d)", l.pos, label, n)})
 	}
